@@ -10,6 +10,7 @@ import (
 	"context"
 	"encoding/hex"
 	"fmt"
+	"slices"
 	"testing"
 	"testing/synctest"
 	"time"
@@ -145,6 +146,69 @@ func vsBuildSpec(k vtrace.Op) *QUICSpec {
 	return &sp
 }
 
+func vsIsGREASE(v uint16) bool { return v&0x0f0f == 0x0a0a && v>>8 == v&0xff }
+
+// vsExpectedHello: the cipher suites and extension identifiers the ClientHelloSpec of sp prescribes, in order.
+// GREASE placeholders are -1; extensions whose identifier cannot be read off the value are -2 (not judged).
+func vsExpectedHello(sp *QUICSpec) (exts, ciphers []int) {
+	for _, cs := range sp.ClientHelloSpec.CipherSuites {
+		if cs == tls.GREASE_PLACEHOLDER || vsIsGREASE(cs) {
+			ciphers = append(ciphers, -1)
+		} else {
+			ciphers = append(ciphers, int(cs))
+		}
+	}
+	for _, ext := range sp.ClientHelloSpec.Extensions {
+		id := -2
+		switch ext.(type) {
+		case *tls.UtlsGREASEExtension:
+			id = -1
+		case *tls.UtlsPaddingExtension:
+			id = 21
+		case *tls.SNIExtension:
+			id = 0 // the name is filled in from the tls.Config at dial time
+		case *tls.QUICTransportParametersExtension:
+			id = 57 // not read here: reading it would make utls cache the marshalled parameters before the dial
+		default:
+			func() {
+				defer func() { recover() }()
+				buf := make([]byte, ext.Len()+8)
+				if n, _ := ext.Read(buf); n >= 2 {
+					id = int(buf[0])<<8 | int(buf[1])
+				}
+			}()
+		}
+		exts = append(exts, id)
+	}
+	return
+}
+
+// vsHelloMatches: wire carries exactly the prescribed list in order; padding (21) and pre_shared_key (41) may be omitted
+func vsHelloMatches(expected []int, wire []uint16, optional map[int]bool) bool {
+	j := 0
+	for _, e := range expected {
+		if e == -2 {
+			return true // an extension the harness cannot identify: not judged
+		}
+		w := -3
+		if j < len(wire) {
+			w = int(wire[j])
+			if vsIsGREASE(wire[j]) {
+				w = -1
+			}
+		}
+		if w == e {
+			j++
+			continue
+		}
+		if optional[e] {
+			continue
+		}
+		return false
+	}
+	return j == len(wire)
+}
+
 func vfRunFlight(c vtrace.Case, rec *vtrace.Rec) {
 	r := &vsRec{rec: rec, start: time.Now()}
 	net, cconn, sconn := vtrace.NewNet(5*time.Millisecond, nil)
@@ -159,11 +223,18 @@ func vfRunFlight(c vtrace.Case, rec *vtrace.Rec) {
 	}()
 	defer sconn.Close()
 	sp := vsBuildSpec(c.Cfg)
+	expExts, expCiphers := vsExpectedHello(sp) // read before any dial touches the spec value
 	ids := []int{}
 	for _, id := range sp.TransportParameterIDs() {
 		ids = append(ids, int(id&0x3fffffff))
 	}
-	r.add(vtrace.Op{"ev": "Reported", "ids": ids})
+	unk := []string{}
+	for i, e := range expExts {
+		if e == -2 {
+			unk = append(unk, fmt.Sprintf("%T", sp.ClientHelloSpec.Extensions[i]))
+		}
+	}
+	r.add(vtrace.Op{"ev": "Reported", "ids": ids, "unk": unk})
 	tr := &Transport{Conn: cconn}
 	ut := &UTransport{Transport: tr, QUICSpec: sp}
 	dial := 0
@@ -240,7 +311,8 @@ func vfRunFlight(c vtrace.Case, rec *vtrace.Rec) {
 					for _, s := range ch.CipherSuites {
 						cs = append(cs, int(s))
 					}
-					buf = append(buf, vtrace.Op{"ev": "CH", "dial": dial, "len": ch.Len, "tps": tps, "exts": exts, "ciphers": cs, "conflict": conflict, "tperr": ch.TPErr})
+					buf = append(buf, vtrace.Op{"ev": "CH", "dial": dial, "len": ch.Len, "tps": tps, "exts": exts, "ciphers": cs, "conflict": conflict, "tperr": ch.TPErr,
+						"extsok": vsHelloMatches(expExts, ch.ExtIDs, map[int]bool{21: true, 41: true}), "ciphersok": vsHelloMatches(expCiphers, ch.CipherSuites, nil), "extsjudged": !slices.Contains(expExts, -2)})
 				}
 			}
 			if h.Len <= 0 || h.Len >= len(data) {
@@ -255,6 +327,7 @@ func vfRunFlight(c vtrace.Case, rec *vtrace.Rec) {
 		frames, odcid, pktIdx, dgIdx, chDone = nil, nil, 0, 0, false
 		if dial > 1 {
 			ut.QUICSpec = vsBuildSpec(c.Cfg) // a fresh spec value per dial (reusing one value is C02's subject)
+			expExts, expCiphers = vsExpectedHello(ut.QUICSpec)
 		}
 		r.add(vtrace.Op{"ev": "DialStart", "dial": dial})
 		ctx, cancel := context.WithTimeout(context.Background(), 120*time.Millisecond)
